@@ -193,7 +193,8 @@ impl Simd {
         let tiny = ctx.profile == "tiny";
         let mut gp = if tiny { GenProfile::tiny() } else { GenProfile::small() }.with_kinds(&[Kind::SincIn, Kind::SincOut]);
         gp.max_channels = 2;
-        let cfg = gen_cfg(&mut rng, &gp);
+        let mut cfg = gen_cfg(&mut rng, &gp);
+        cfg.kernel = Kernel::Auto; // this monitor builds every kernel itself and compares with the dispatching constructor
         let hp = HistProfile::full(if tiny { 4 } else { 12 });
         let ops = gen_history(&mut rng, &cfg, &hp);
         let s1 = rng.next();
